@@ -40,6 +40,18 @@ CLAIMED = {
         technique="real fault injection at every save point + TLC trace validation (MPSRunTrace.tla) + TLA+ model checking of MPSRun.tla",
         design_ref="4/C26",
     ),
+    "C01": dict(
+        level="exploration",
+        text="SVRun.tla models the emu-sv step loop (which row, duration and interaction query each step uses, when observables are evaluated) and is model-checked; "
+             "hook traces of real SVBackend.run() executions over stratified scenarios (atoms x waveform x phase x DMM x SLM x modulation x dt class x evaluation-time class x "
+             "initial state x tolerance) are validated by SVRunTrace.tla with numeric atoms from the independent dense reference: state and every observable equal the exact "
+             "piecewise-constant evolution on the rows the stepper actually received (10*tol per step + rounding), and occupations agree with a converged continuous-time "
+             "reference within the discretisation error of an ideal midpoint scheme.",
+        note="Accuracy is sampled (seeded), not proved. Pulser's QuTiP emulator is absent: the continuous-time reference is a fine-step evolution of the PCHIP-interpolated Pulser samples. "
+             "Dense reference limits N <= 10 (continuous-time part N <= 5).",
+        technique="TLA+ model of the run loop (TLC) + TLC trace validation of real runs with reference-computed numeric atoms",
+        design_ref="4/C01",
+    ),
 }
 PENDING_REASON = "check not built yet in this round (planned in DESIGN.md section 4); not claimed until it runs"
 NOT_APPLICABLE = {}
